@@ -144,7 +144,9 @@ type Op struct {
 	// consumer side (EReader): buffer sizes of successive Read calls (then 4096).
 	ReadBufs []int
 
-	Direct minify.Minifier // EDirect: the package minifier (shared option struct) called directly
+	NoYield bool            // the doubles of this op are not yield points (the call runs in one turn)
+	NoCopy  bool            // EBytes: hand the caller's slice over as it is (aliasing scenario)
+	Direct  minify.Minifier // EDirect: the package minifier (shared option struct) called directly
 
 	// HTTP
 	ContentType   string
@@ -232,7 +234,10 @@ func (op *Op) Exec(y *sim.Point, m *minify.M) {
 		op.Err = f(m, op.W, op.reader(), params)
 		op.Out = op.W.Buf
 	case EBytes:
-		in := append([]byte(nil), op.In...)
+		in := op.In
+		if !op.NoCopy {
+			in = append([]byte(nil), op.In...)
+		}
 		op.Out, op.Err = m.Bytes(op.MT, in)
 	case EString:
 		s, err := m.String(op.MT, string(op.In))
